@@ -669,12 +669,172 @@ def facts_catalog():
     return out
 
 
-SECTIONS = [("stream", facts_stream), ("control", facts_control), ("packets", facts_packets), ("conn", facts_conn), ("shared", facts_shared), ("auth", facts_auth), ("results", facts_results), ("catalog", facts_catalog)]
+# ----------------------------------------------------------------------------- charset.py
+def cps(s):
+    return "[" + ";".join(str(ord(c)) for c in s) + "]"
+
+
+def enum_members(cls):
+    out = []
+    for n in cls.body:
+        if isinstance(n, ast.Assign) and len(n.targets) == 1 and isinstance(n.targets[0], ast.Name):
+            out.append((n.targets[0].id, const_int(n.value)))
+    return out
+
+
+def charset_tables():
+    tree = parse("charset.py")
+    cs = enum_members(find_class(tree, "CharacterSet"))
+    co = enum_members(find_class(tree, "Collation"))
+    if len(cs) < 10 or len(co) < 100:
+        raise Shape("charset enums too small")
+    maps = {}
+    for n in tree.body:
+        if isinstance(n, ast.Assign) and isinstance(n.value, ast.Dict) and isinstance(n.targets[0], ast.Name):
+            d = []
+            for k, v in zip(n.value.keys, n.value.values):
+                if not (isinstance(k, ast.Attribute) and isinstance(v, ast.Attribute)):
+                    raise Shape(f"{n.targets[0].id}: entry shape")
+                d.append((k.attr, v.attr))
+            maps[n.targets[0].id] = d
+    if set(maps) != {"DEFAULT_CHARACTER_SETS", "DEFAULT_COLLATIONS"}:
+        raise Shape("charset maps")
+    # CharacterSet.codec: either `if self.name == X: return Y ... return self.name` or `return {..}.get(self.name, self.name)`
+    codec = find_func(find_class(tree, "CharacterSet"), "codec")
+    special = {}
+    body = [b for b in codec.body if not (isinstance(b, ast.Expr) and isinstance(b.value, ast.Constant))]
+    last = body[-1]
+    if not isinstance(last, ast.Return):
+        raise Shape("codec: last statement")
+    if ast.unparse(last.value) == "self.name":
+        for b in body[:-1]:
+            if not (isinstance(b, ast.If) and isinstance(b.test, ast.Compare) and ast.unparse(b.test.left) == "self.name"
+                    and isinstance(b.test.ops[0], ast.Eq) and len(b.body) == 1 and isinstance(b.body[0], ast.Return) and not b.orelse):
+                raise Shape("codec: if shape")
+            special[b.test.comparators[0].value] = b.body[0].value.value
+    elif (len(body) == 1 and isinstance(last.value, ast.Call) and isinstance(last.value.func, ast.Attribute) and last.value.func.attr == "get"
+          and isinstance(last.value.func.value, ast.Dict) and [ast.unparse(a) for a in last.value.args] == ["self.name", "self.name"]):
+        dct = last.value.func.value
+        for k, v in zip(dct.keys, dct.values):
+            special[k.value] = v.value
+    else:
+        raise Shape("codec: shape")
+    for fn, want in (("decode", "return b.decode(self.codec)"), ("encode", "return s.encode(self.codec)")):
+        f = find_func(find_class(tree, "CharacterSet"), fn)
+        if ast.unparse(f.body[-1]) != want:
+            raise Shape(f"CharacterSet.{fn}")
+    return cs, co, maps, special
+
+
+def facts_charset():
+    import codecs
+    cs, co, maps, special = charset_tables()
+    out = []
+    out.append("(* (name, id, codec name, Python has that codec) *)")
+    rows = []
+    for name, i in cs:
+        codec = special.get(name, name)
+        try:
+            codecs.lookup(codec)
+            has = True
+        except LookupError:
+            has = False
+        rows.append(f"  ({cps(name)}, {i}, {cps(codec)}, {str(has).lower()}) (* {name} -> {codec} *)")
+    out.append("Definition charset_table : list (list N * N * list N * bool) := [\n" + ";\n".join(rows) + "].")
+    out.append("Definition collation_table : list (list N * N) := [\n" + ";\n".join(f"  ({cps(n)}, {i})" for n, i in co) + "].")
+    out.append("Definition collation_charset : list (list N * list N) := [\n" + ";\n".join(f"  ({cps(k)}, {cps(v)})" for k, v in maps["DEFAULT_CHARACTER_SETS"]) + "].")
+    out.append("Definition default_collations : list (list N * list N) := [\n" + ";\n".join(f"  ({cps(k)}, {cps(v)})" for k, v in maps["DEFAULT_COLLATIONS"]) + "].")
+    return out
+
+
+# ----------------------------------------------------------------------------- variables.py / session.py (SET, hints)
+VARS_BODIES = [
+    "variables.py:Variables:get_schema", "variables.py:Variables:set", "variables.py:Variables:get", "variables.py:Variables:list",
+    "variables.py::parse_timezone", "variables.py::=RE_TIMEZONE", "variables.py::_validate_character_set",
+    "variables.py:SessionVariables:schema", "variables.py:GlobalVariables:schema",
+    "session.py:Session:_set_var_middleware", "session.py:Session:_set_middleware", "session.py:Session:_set_variable",
+    "session.py:Session:_set_charset", "session.py:Session:_set_names", "session.py:Session:_set_transaction",
+    "session.py:Session:_replace_variables_middleware", "session.py:Session:timezone", "session.py:Session:handle_query",
+    "intercept.py::setitem_kind", "intercept.py::value_to_expression", "intercept.py::expression_to_value",
+]
+
+
+def coq_default(node, ty):
+    if isinstance(node, ast.Constant):
+        v = node.value
+        if v is None:
+            return "VNone"
+        if isinstance(v, bool):
+            return f"(VBool {str(v).lower()})"
+        if isinstance(v, int):
+            return f"(VInt {v}%Z)"
+        if isinstance(v, str):
+            return f"(VStr {cps(v)})"
+    if isinstance(node, ast.Attribute) and node.attr == "name" and isinstance(node.value, ast.Attribute) \
+            and isinstance(node.value.value, ast.Name) and node.value.value.id in ("CharacterSet", "Collation"):
+        return f"(VStr {cps(node.value.attr)})"
+    raise Shape("default value shape: " + ast.unparse(node))
+
+
+def facts_vars():
+    out = []
+    for key in VARS_BODIES:
+        body_fact(key, out)
+    tree = parse("variables.py")
+    sv = [n for n in tree.body if isinstance(n, ast.AnnAssign) and ast.unparse(n.target) == "SYSTEM_VARIABLES"]
+    if len(sv) != 1 or not isinstance(sv[0].value, ast.Dict):
+        raise Shape("SYSTEM_VARIABLES not found")
+    rows = []
+    for k, v in zip(sv[0].value.keys, sv[0].value.values):
+        if not (isinstance(k, ast.Constant) and isinstance(v, ast.Tuple) and len(v.elts) == 3 and isinstance(v.elts[0], ast.Name)
+                and v.elts[0].id in ("int", "bool", "str") and isinstance(v.elts[2], ast.Constant) and isinstance(v.elts[2].value, bool)):
+            raise Shape("SYSTEM_VARIABLES entry shape")
+        ty = {"int": "TInt", "bool": "TBool", "str": "TStr"}[v.elts[0].id]
+        rows.append(f"  ({cps(k.value)}, ({ty}, {coq_default(v.elts[1], ty)}, {str(v.elts[2].value).lower()})) (* {k.value} *)")
+    out.append("Definition system_variables : schema_t := [\n" + ";\n".join(rows) + "].")
+    # validators
+    va = [n for n in tree.body if isinstance(n, (ast.Assign, ast.AnnAssign)) and ast.unparse(n.targets[0] if isinstance(n, ast.Assign) else n.target) == "VALIDATORS"]
+    if len(va) != 1 or not isinstance(va[0].value, ast.Dict):
+        raise Shape("VALIDATORS: assignments to variables the server depends on are not checked")
+    vd = {k.value: ast.unparse(v) for k, v in zip(va[0].value.keys, va[0].value.values)}
+    want = {"character_set_client": "_validate_character_set", "character_set_connection": "_validate_character_set",
+            "character_set_results": "_validate_character_set", "time_zone": "parse_timezone"}
+    out.append("Definition variables_validators_ok : bool := %s." % str(vd == want).lower())
+    # TRANSACTION_CHARACTERISTICS
+    it = parse("intercept.py")
+    tc = [n for n in it.body if isinstance(n, ast.Assign) and ast.unparse(n.targets[0]) == "TRANSACTION_CHARACTERISTICS"]
+    if len(tc) != 1 or not isinstance(tc[0].value, ast.Dict):
+        raise Shape("TRANSACTION_CHARACTERISTICS")
+    rows, names = [], []
+    for k, v in zip(tc[0].value.keys, tc[0].value.values):
+        if not (isinstance(k, ast.Constant) and isinstance(v, ast.Tuple) and len(v.elts) == 2):
+            raise Shape("TRANSACTION_CHARACTERISTICS entry")
+        names.append(k.value)
+        rows.append(f"  ({cps(v.elts[0].value)}, {coq_default(v.elts[1], None)}) (* {k.value} *)")
+    out.append("Definition tx_characteristics : list (str * value) := [\n" + ";\n".join(rows) + "].")
+    out.append("Definition tx_names : list string := [" + "; ".join(coq_string(n) for n in names) + "]%string.")
+    # the handshake announces variables.get('version'); force is used for external_user only
+    conn = open(os.path.join(SRC, "connection.py")).read()
+    out.append("Definition handshake_announces_version_variable : bool := %s." %
+               str('server_version=self.session.variables.get("version")' in conn).lower())
+    import re as _re
+    forced = sorted(set(_re.findall(r'variables\.set\(\s*"([a-z_]+)"[^)]*force=True', conn)))
+    every = []
+    for f in os.listdir(SRC):
+        if f.endswith(".py"):
+            every += [(f, m) for m in _re.findall(r'force\s*=\s*True', open(os.path.join(SRC, f)).read())]
+    out.append("Definition forced_assignments : list string := [" + "; ".join(coq_string(n) for n in forced) + "]%string.")
+    out.append("Definition forced_assignment_sites : nat := %d." % len(every))
+    return out
+
+
+SECTIONS = [("stream", facts_stream), ("control", facts_control), ("packets", facts_packets), ("conn", facts_conn), ("shared", facts_shared), ("auth", facts_auth), ("results", facts_results), ("catalog", facts_catalog), ("charset", facts_charset), ("vars", facts_vars)]
 
 
 IMPORTS = {
     "stream": "From MM Require Import Lib.Bytes Model.Wire.",
     "control": "From MM Require Import Lib.Bytes Model.ConnId.",
+    "vars": "From MM Require Import Lib.Bytes Model.Vars.",
 }
 
 
